@@ -285,3 +285,45 @@ func HarnessC17TwoFilters(L int) {
 	verifReach("checked")
 	verifCheckf(n1 == want(pr[0]) && n2 == want(pr[1]), "filter-key-checked-with-the-wrong-syntax", pr[0]+" + "+pr[1])
 }
+
+// HarnessC17NonASCII: a character outside ASCII (every two-byte UTF-8 sequence,
+// U+0080..U+07FF, as two symbolic bytes) is an ordinary character of a filter
+// pattern: a pattern of L ASCII bytes with that character inserted at any
+// position gets as many reports, and is accepted or rejected, exactly as the
+// same pattern with the letter k in its place — as ref filter and as path
+// filter.
+func HarnessC17NonASCII(L int) {
+	pat := verifSymString("pat", L)
+	for i := 0; i < L; i++ {
+		verifAssumeNote(verifAnd(verifAnd(pat[i] < 0x80, pat[i] != 0), pat[i] != '-'), "C17 non-ASCII: the rest of the pattern is ASCII without NUL and without '-' (in a range the character's order matters)")
+	}
+	ch := verifSymString("char", 2)
+	verifAssumeNote(verifAnd(verifAnd(0xc2 <= ch[0], ch[0] <= 0xdf), verifAnd(0x80 <= ch[1], ch[1] <= 0xbf)), "C17 non-ASCII: one well-formed two-byte UTF-8 sequence")
+	p := verifChoose("position", L+1)
+	with := pat[:p] + ch + pat[p:]
+	plain := pat[:p] + "k" + pat[p:]
+	isRef := verifChoose("ref", 2) == 1
+	var e1, e2 []InvalidGlobPattern
+	if isRef {
+		e1, e2 = ValidateRefGlob(with), ValidateRefGlob(plain)
+	} else {
+		e1, e2 = ValidatePathGlob(with), ValidatePathGlob(plain)
+	}
+	verifReach("compared")
+	verifCheck(len(e1) == len(e2), "non-ASCII-character-not-treated-as-an-ordinary-character")
+}
+
+// HarnessC17Nul: NUL is an ASCII control character, which Git's ref-name rules
+// forbid: a ref filter of L bytes that contains a NUL anywhere is reported.
+func HarnessC17Nul(L int) {
+	pat := verifSymString("pat", L)
+	has := false
+	for i := 0; i < L; i++ {
+		verifAssumeNote(pat[i] < 0x80, "C17 NUL: ASCII pattern")
+		has = verifOr(has, pat[i] == 0)
+	}
+	verifAssume(has)
+	errs := ValidateRefGlob(pat)
+	verifReach("checked")
+	verifCheck(len(errs) >= 1, "accepted-but-invalid")
+}
